@@ -95,6 +95,22 @@ def gen_history(r, n, n_moves, p_fault, outliers=True, twin_prob=0.3):
         kind = r.choice(["new", "new", "add", "add", "out"] if outliers else ["new", "new", "add", "add"])
         ops.append(["place", dp, kind, r.randrange(1 << 30)])
         maybe_fault()
+    if r.random() < 0.4 and n_moves >= 8:
+        # the run loop's own rhythm: (subtree or whole-tree replacement) -> data-point moves -> prune-regraft -> relabel [-> trace image]
+        for _ in range(max(2, n_moves // 4)):
+            ops.append(["subtree", r.randrange(1 << 30)])
+            maybe_fault()
+            for _k in range(r.choice([0, 1, 2])):
+                ops.append(["dpmove", r.randrange(1 << 30)])
+            for _k in range(r.choice([1, 1, 2])):
+                ops.append(["prg", r.randrange(1 << 30)])
+            maybe_fault()
+            ops.append(["relabel", r.randrange(1 << 30)])
+            if r.random() < 0.3:
+                ops.append(["rebuild_pair", r.randrange(1 << 30)])
+            if r.random() < 0.5:
+                ops.append(["persist", "dict", False])
+        return ops
     for _ in range(n_moves):
         k = r.choice(["dpmove", "dpmove", "prg", "prg", "subtree", "relabel", "rebuild_pair", "alpha"])
         ops.append([k, r.randrange(1 << 30)])
